@@ -1,5 +1,5 @@
 (* C03 -- Trigger placement: actions fire at exactly the configured locations. *)
-From Deep Require Import Base Match MatchProofs.
+From Deep Require Import Base Config Limiter Cond Match MatchProofs Handler HandlerProofs.
 From Coq Require Import Permutation.
 
 (* a line tracepoint matches exactly the line events of that file and line; a named method tracepoint
@@ -51,3 +51,20 @@ Theorem C03_merge :
   forall ts e, Permutation (actions_for (merge ts) e) (actions_for ts e).
 Proof. exact merge_keeps_actions. Qed.
 Print Assumptions C03_merge.
+
+(* the composition (matching, then each action's own limits and condition): whatever fires at an event was at
+   its configured location, permitted by ITS OWN limits, and its condition held *)
+Theorem C03_fired_only_when_matched_and_permitted :
+  forall inst st e x, NoDup (ids inst) -> In x (snd (handle inst st e)) ->
+  exists l a, In (l, a) inst /\ ha_id a = x /\ at_loc l (he_ev e) = true /\
+              can_trigger (ha_lim a) (st x) (he_ts e) = true /\ gate (ha_cond a) (env_of (he_env e)) = true.
+Proof. exact fired_sound. Qed.
+Print Assumptions C03_fired_only_when_matched_and_permitted.
+
+(* every tracepoint acts independently of the others: over any event sequence the statistics of an action are
+   those of the limiter run on the events at ITS location, whatever else is installed *)
+Theorem C03_each_tracepoint_on_its_own :
+  forall l1 l a l2 es st, ~ In (ha_id a) (ids l1) -> ~ In (ha_id a) (ids l2) ->
+  fst (run_events (l1 ++ (l, a) :: l2) st es) (ha_id a) = fst (run (ha_lim a) (st (ha_id a)) (own_hits l a es)).
+Proof. intros. apply action_sees_only_its_own_hits; assumption. Qed.
+Print Assumptions C03_each_tracepoint_on_its_own.
